@@ -5,6 +5,17 @@ import "verif/checker/core"
 
 func init() {
 	core.Register(&core.Property{
+		ID:         "C01",
+		Decided:    "Decides that the opcode machinery the encoder compiler relies on is closed and complete: the opcode table layout matches the index arithmetic of the conversion functions, every opcode the compiler can derive has a handler in all four interpreters, every JSON-encodable reflect.Kind is routed to a code constructor, and program copies carry every field; it does not decide the bytes Marshal produces.",
+		NotCovered: "member order, number formatting, tag semantics, embedded-field conflict resolution, the meaning of any opcode handler, equality with encoding/json's output.",
+		Rules: []*core.Rule{
+			{ID: "C01.R1", Title: "opTypeStrings lists, for every stem, Head/HeadOmitEmpty/PtrHead/PtrHeadOmitEmpty and Field/FieldOmitEmpty/End/EndOmitEmpty at exactly the offsets the OpType conversion functions add, and every Op constant indexes its own name", Covers: "omitempty / pointer-head / struct-end variants select the intended opcode", Min: 600, Run: c01r1},
+			{ID: "C01.R2", Title: "closure of the opcodes the compiler emits under the conversion functions is contained in the case labels of Run in each of the four VMs (slice/array end markers exempt when never made current)", Covers: "Marshal succeeds whenever encoding/json does (no 'opcode not implemented')", Min: 1300, Run: c01r2},
+			{ID: "C01.R3", Title: "typeToCode/typeToCodeWithPtr/mapKeyCode route every JSON-encodable reflect.Kind to a constructor and no unsupported kind", Covers: "set of supported types equals encoding/json's", Min: 50, Run: c01r3},
+			{ID: "C01.R4", Title: "copyOpcode and every Filter method that rebuilds its receiver carry over each field that is assigned anywhere else in the package, field-for-field", Covers: "cached/filtered programs behave like the freshly compiled one", Min: 20, Run: c01r4},
+		},
+	})
+	core.Register(&core.Property{
 		ID:         "C04",
 		Decided:    "Decides that the writer's and the reader's constant tables agree (escape letters, digit pairs, powers of ten, hex digits, base64 codec); it does not decide that Unmarshal(Marshal(v)) equals v.",
 		NotCovered: "float shortest-representation/parse inversion, nil-versus-empty, every value-level part of the round trip.",
